@@ -303,13 +303,16 @@ Fixpoint assoc_pass2 (m : amap) (l : list sid) (n : Z) (cs : list cinfo) : amap 
       | None => assoc_pass2 m r n cs
       end
   end.
+(* third loop: a character reached from one side only (its slot was deleted and nothing re-associated it) gets both sides *)
+Definition ci_both_sides (c : cinfo) : cinfo :=
+  if c_before c <? 0 then mkci (c_after c) (c_after c) else if c_after c <? 0 then mkci (c_before c) (c_before c) else c.
 Definition do_assocchars (st : sstate) : res sstate :=
   let n := st_nchars st in
   let m1 := set_indices (st_attr st) (st_stream st) 0 in
   let cs0 := repeat (mkci (-1) (-1)) (Z.to_nat n) in
   let cs1 := assoc_pass1 (st_attr st) (st_stream st) 0 cs0 in         (* pass 1 reads before/after; indices are being assigned *)
   let '(m2, cs2) := assoc_pass2 m1 (st_stream st) n cs1 in
-  Ok (mkst (st_stream st) m2 n (st_deforig st) (st_rtl st) cs2 (st_lines st)).
+  Ok (mkst (st_stream st) m2 n (st_deforig st) (st_rtl st) (map ci_both_sides cs2) (st_lines st)).
 
 Definition do_append (st : sstate) (s : sid) (ci : Z) : res sstate :=
   match aget (st_attr st) s with
